@@ -123,7 +123,9 @@ def base_mul(scalar32: bytes) -> bytes:
 
 class Config:
     def __init__(self, max_items=1024, max_item_size=1024, limit=128,
-                 flags=None, contracts=None, now=0, entropy=None):
+                 flags=None, contracts=None, now=0, entropy=None,
+                 plugins=None):
+        self.plugins = plugins or {}
         self.max_items = max_items
         self.max_item_size = max_item_size
         self.limit = limit
@@ -131,6 +133,20 @@ class Config:
         self.contracts = contracts or {}
         self.now = now
         self.entropy = entropy          # callable(n) -> bytes
+
+
+class _TwoItems:
+    """what a check_template plugin sees: the template on top, the sigfield
+    beneath (read-only view with the Stack's peek signature)"""
+
+    def __init__(self, field, template):
+        self.items = [field, template]
+
+    def peek(self, index=0):
+        return self.items[len(self.items) - index - 1]
+
+    def __len__(self):
+        return 2
 
 
 DEFAULT_FLAGS = {'ts_threshold': 60, 'epoch_threshold': 60,
@@ -294,7 +310,15 @@ class VM:
     def OP_PUSH2(self, f, n):
         self.push(self.read(f, int.from_bytes(self.read(f, 2), 'big')))
 
+    def sig_ext(self):
+        """signature-extension plugins run exactly once before every
+        signature-related instruction (embedder code: same callables as in the
+        real run; they only touch the cache)"""
+        for p in self.cfg.plugins.get('signature_extensions', ()):
+            p(None, None, self.cache)
+
     def OP_GET_MESSAGE(self, f, n):
+        self.sig_ext()
         flag = self.u8(f)
         self.push(self.message(flag))
 
@@ -525,6 +549,7 @@ class VM:
         return sigmsg.valid_fast(key, msg, sig[:64])
 
     def OP_CHECK_SIG(self, f, n):
+        self.sig_ext()
         allowed = self.u8(f)
         key = self.pop()
         sig = self.pop()
@@ -870,6 +895,7 @@ class VM:
     return_in_loop = False
 
     def OP_CHECK_MULTISIG(self, f, n):
+        self.sig_ext()
         allowed, m, k = self.u8(f), self.u8(f), self.u8(f)
         keys = [self._content(self.pop()) for _ in range(k)]
         sigs = [self._content(self.pop()) for _ in range(m)]
@@ -882,6 +908,8 @@ class VM:
         for s in sigs:
             flag = s[64] if len(s) == 65 else 0
             msg = self.message(flag)
+            if len(msg) > self.cfg.max_item_size:
+                raise Unspecified('signed message longer than the item limit')
             adj.append({i for i, key in enumerate(keys)
                         if sigmsg.valid_fast(key, msg, s[:64])})
         if len(set(keys)) != len(keys):
@@ -899,6 +927,7 @@ class VM:
         self.OP_VERIFY(f, n)
 
     def OP_SIGN(self, f, n):
+        self.sig_ext()
         flag = self.u8(f)
         seed = self._content(self.pop())
         if len(seed) != 32:
@@ -1145,15 +1174,24 @@ class VM:
         self._bitop(lambda x, y: x & y)
 
     def OP_CHECK_TEMPLATE(self, f, n):
+        if f.flags.get(10, True):
+            self.sig_ext()
         flag = self.u8(f)
         ok = True
+        plugins = self.cfg.plugins.get('check_template', ())
         for i in range(1, 9):
             if (flag >> (i - 1)) & 1:
                 tmpl = self._content(self.pop())
                 k = f'sigfield{i}'
                 if k not in self.cache:
                     raise VMError('missing sigfield')
-                ok = ok and tmpl == self.cache[k]
+                field = self.cache[k]
+                if not plugins:
+                    ok = ok and tmpl == field
+                else:
+                    view = _TwoItems(field, tmpl)
+                    res = [p(None, view, self.cache) for p in plugins]
+                    ok = ok and any(res)
         self.push(b'\xff' if ok else b'\x00')
 
     def OP_CHECK_TEMPLATE_VERIFY(self, f, n):
@@ -1183,6 +1221,7 @@ class VM:
             self.OP_EVAL(f, n)
         else:
             sig = self.pop()
+            self.sig_ext()
             self.push(b'\xff' if self._check_sig(root, sig, allowed)
                       else b'\x00')
 
